@@ -52,6 +52,18 @@ type Op struct {
 	// are outpoints that do not exist (the block is invalid in context); ops "holdfile"/"holdcommit"/"window"/"release"/
 	// "join"/"waitsave"/"restart" are implemented by wideOp
 	Async bool
+	// miss3.go: blk with Big = the transaction's outputs carry a 34000-byte script (a record larger than the 64 KiB save chunk);
+	// Low = the output values are varied until the txid's first byte is < 8 (the record lives in one of the first maps the
+	// snapshot writer walks, so a paced save pauses at the beginning of its walk); ops "undo" (Chain.UndoLastBlock called
+	// directly, as the text-UI command `undo` does; Async = from a goroutine of its own), "undostart" (clean shutdown, then
+	// NewChainExt with UndoBlocks = N as `gocoin -undo N` does, clean shutdown, normal restart) and "settle" (wait until the
+	// asynchronous operations have returned, at most N ms) are implemented by missOp
+	Big bool
+	Low bool
+	// High = the block's records lie in maps the writer reaches late: its transaction's txid and its coinbase's txid start with
+	// a byte >= 0x40 (output value / extranonce varied), and the spends named hi1..hi4 are the mature base coinbases cb2..cb5
+	// ordered by the first byte of their txid, highest first
+	High bool
 }
 
 type Workload struct {
@@ -66,6 +78,7 @@ type Workload struct {
 	BulkN      int    // bulk.go: number of blocks queued without an Idle
 	BulkStride int    // bulk.go: sampling stride of the captures inside the flush
 	BulkEvery  int    // bulk.go: after the flush every BulkEvery-th hit is captured (≤ 1 = all)
+	Lib        bool   // miss3.go: every capture is ALSO re-opened in library mode (NewChainExt without DoNotRescan) in quick runs
 }
 
 func blk(name, parent string, nout int, spend ...string) Op {
@@ -89,7 +102,8 @@ func workloads(r *vlib.Run) []Workload {
 		{Name: "abort-by-new-block", Model: true, Shape: "abort", Ops: []Op{skip(0), {K: "pause", N: 1},
 			blk("A1", "", 2, "f1"), idle, {K: "waitchunk"}, blk("A2", "", 1, "A1.0"), wait, idle, {K: "waitchunk"}, {K: "hurry"}, wait,
 			blk("A3", "", 0), {K: "pause", N: 0}, closeOp}},
-		{Name: "reorg-after-save", Model: true, Shape: "reorg-after-save", Ops: []Op{skip(0),
+		// Lib: also re-opened in library mode in quick runs (equal-height siblings, off-branch snapshots): the tie of Model/PersistLib.lean
+		{Name: "reorg-after-save", Model: true, Lib: true, Shape: "reorg-after-save", Ops: []Op{skip(0),
 			blk("A1", "", 2, "f1"), blk("A2", "", 1, "f2"), idle, wait,
 			blk("B1", "base", 1, "f3"), blk("B2", "B1", 1, "f4"), idle, blk("B3", "B2", 0), idle, wait, closeOp}},
 		{Name: "reorg-save-extend", Model: true, Shape: "reorg-save-extend", Ops: []Op{skip(0),
@@ -216,11 +230,9 @@ func buildBase(root string) *Base {
 	b := &Base{Dir: root + "/base/", Coins: map[string]*chainkit.Coin{}}
 	utxo.UTXO_WRITING_TIME_TARGET = 0
 	utxo.UTXO_SKIP_SAVE_BLOCKS = 0
+	lockDir(b.Dir)
+	defer unlockDir() // after the clean Close below: the base directory is the one of a node that was shut down properly
 	k := newKit(b.Dir)
-	bigScript := make([]byte, 34000)
-	for i := range bigScript {
-		bigScript[i] = 0x51
-	}
 	for h := uint32(1); h <= baseLen; h++ {
 		var txs []*btc.Tx
 		if h == 102 {
@@ -567,6 +579,9 @@ type WlRun struct {
 	ModelTok []string // oracle tokens of this workload (after the base tokens)
 	Err      string
 	WideNote string // wide.go: whether the pinned schedule reached its window
+	// miss3.go
+	RestartPanic string      // a clean Close + NewChainExt inside the history panicked with this message
+	Closed       []closedDir // directories left behind by the clean shutdowns inside the history
 }
 
 func runWorkload(root string, base *Base, w Workload, only int) *WlRun {
@@ -577,6 +592,8 @@ func runWorkload(root string, base *Base, w Workload, only int) *WlRun {
 	}
 	utxo.UTXO_WRITING_TIME_TARGET = 0
 	utxo.UTXO_SKIP_SAVE_BLOCKS = 0
+	lockDir(wr.Dir) // the node holds <datadir>/.lock while it runs (client/init.go host_init): every capture contains the file
+	defer unlockDir()
 	k := newKitOpt(wr.Dir, w.MaxDat)
 	coins := map[string]*chainkit.Coin{}
 	for n, c := range base.Coins {
@@ -637,7 +654,8 @@ func runWorkload(root string, base *Base, w Workload, only int) *WlRun {
 				}
 			}
 		case "waitchunk":
-			if !s.waitFor(func() bool { return s.fileCh >= 1 || saveDone() }) {
+			// a chunk of the save that was just STARTED (fileCh is reset at its utxo.save:begin; until then it still counts the previous save)
+			if !s.waitFor(func() bool { return (s.cnt["utxo.save:begin"] >= s.started && s.fileCh >= 1) || saveDone() }) {
 				wr.Err = "waitchunk: no chunk"
 			}
 		case "hurry":
@@ -669,7 +687,7 @@ func runWorkload(root string, base *Base, w Workload, only int) *WlRun {
 				var ins []*chainkit.Coin
 				var sum uint64
 				for _, cn := range op.Spend {
-					c := coins[cn]
+					c := coins[hiCoin(coins, cn)]
 					if c == nil && strings.HasPrefix(cn, "nx") {
 						c = nonexistentCoin(w.Name + "/" + op.Name + "/" + cn)
 					}
@@ -680,17 +698,16 @@ func runWorkload(root string, base *Base, w Workload, only int) *WlRun {
 					ins = append(ins, c)
 					sum += c.Value
 				}
-				var outs []chainkit.OutSpec
-				for o := 0; o < op.NOut; o++ {
-					outs = append(outs, anyone(sum/uint64(op.NOut)))
-				}
-				tx := chainkit.BuildTx(2, ins, nil, outs, 0)
+				tx := buildOpTx(op, ins, sum)
 				txs = append(txs, tx)
 				for o, c := range chainkit.OutCoins(tx, nil, parent.Height+1, false) {
 					coins[fmt.Sprintf("%s.%d", op.Name, o)] = c
 				}
 			}
 			raw := k.Build(chainkit.BlockSpec{Parent: parent, Txs: txs})
+			for try := 0; op.High && try < 64 && coinbaseFirstByte(raw) < 0x40; try++ {
+				raw = k.Build(chainkit.BlockSpec{Parent: parent, Txs: txs}) // the next extranonce
+			}
 			bl, _ := btc.NewBlock(raw)
 			wr.Hash[op.Name] = hex.EncodeToString(bl.Hash.Hash[:])
 			wr.Blocks = append(wr.Blocks, raw)
@@ -705,7 +722,7 @@ func runWorkload(root string, base *Base, w Workload, only int) *WlRun {
 			res := k.Submit(raw)
 			wr.Results = append(wr.Results, op.Name+": "+res.String())
 		default:
-			if !wx.wideOp(op, &k) && wr.Err == "" {
+			if !wx.wideOp(op, &k) && !wx.missOp(op, &k) && wr.Err == "" {
 				wr.Err = "unknown op " + op.K
 			}
 		}
@@ -821,3 +838,4 @@ func main() {
 var diag *os.File = os.Stderr
 
 func filepathBase(p string) string { return filepath.Base(strings.TrimRight(p, "/")) }
+func filepathDir(p string) string  { return filepath.Dir(strings.TrimRight(p, "/")) }
